@@ -26,7 +26,9 @@ RULE = (f"Enumerated product of config commit/tag/push x tri-state --commit/--ta
         f"set}} x remote {{present, absent}} x --dry x --fetch/--no-fetch x {{git, hg}} = {TOTAL} configurations (thorough: all; "
         "quick: a stride-47 sample of everything - 47 is coprime to every dimension size - plus a stride-11 sample of the configurations that can reach the commit step, seed-dependent offsets), each run as a real `update --patch` against fake "
         "git/hg executables that log argv; plus a fault layer: for a sample of configurations that reach the commit step, "
-        "each VCS sub-command kind (fetch, tag listing, status, add, commit, tag, push) is made to fail in turn. Oracle: a "
+        "each VCS sub-command kind (fetch, tag listing, status, add, commit, tag, push) is made to fail in turn; plus all 192 "
+        "combinations of tag scope x --ignore-vcs-tag x --set-version x fetch x remote x vcs x --dry (which decide whether a second, "
+        "never-fetching tag listing happens). Oracle: a "
         "reference sequencer predicts the event list (fetch, tag listing, status, pre-hook, add{paths}, commit, post-hook, "
         "tag, push), truncated at the first failing step; the observed log projected onto these kinds must equal it (adds "
         "as a set), exit != 0 iff a step failed / a rule aborted / the flags contradict; tag annotated iff a message is set; "
@@ -95,6 +97,18 @@ def fault_domain(tier):
     return out
 
 
+def scope_domain(tier):
+    """tag scope / --ignore-vcs-tag / --set-version decide whether a second tag listing (uniqueness) happens: none of
+    them may ever fetch on its own, and --no-fetch must hold for every listing"""
+    out = []
+    for scope, ignore, setv, fetch, remote, vcs, dry in itertools.product(
+            ["default", "global", "branch"], [False, True], [False, True], [True, False], [True, False], ["git", "hg"], [False, True]):
+        out.append({"cfg_commit": True, "cfg_tag": True, "cfg_push": False, "cli_commit": None, "cli_tag": None, "cli_push": None,
+                    "pre": "absent", "post": "absent", "tree": "clean", "allow_dirty": False, "tag_message": "", "remote": remote,
+                    "dry": dry, "fetch": fetch, "vcs": vcs, "fault": None, "scope": scope, "ignore": ignore, "set_version": setv})
+    return out
+
+
 OLD, NEW = "1.2.3", "1.2.4"
 FILES = ["a.txt", "bumpver.toml"]
 
@@ -126,11 +140,17 @@ def model(c):
     if c["cli_push"] is not None:
         push = c["cli_push"]
     # start version from the VCS tags
-    if c["fetch"] and c["remote"]:
-        if not step("fetch"):
+    scope = c.get("scope", "default")
+    if not c.get("ignore"):
+        if c["fetch"] and c["remote"]:
+            if not step("fetch"):
+                return {"events": ev, "fail": True, "rewritten": False, "contradiction": False}
+        if not step("tags_merged" if scope == "branch" else "tags_all"):
             return {"events": ev, "fail": True, "rewritten": False, "contradiction": False}
-    if not step("tags_all"):
-        return {"events": ev, "fail": True, "rewritten": False, "contradiction": False}
+    if scope == "branch" or c.get("set_version") or c.get("ignore"):
+        # uniqueness of the new version among all tags: a plain listing, never a fetch
+        if not step("tags_all"):
+            return {"events": ev, "fail": True, "rewritten": False, "contradiction": False}
     if c["dry"]:
         return {"events": ev, "fail": False, "rewritten": False, "contradiction": False}
     if commit:
@@ -231,6 +251,8 @@ def check(case):
         fv = fakevcs.FakeVCS(tmp, c["vcs"], state_dir=fvdir)
         options = {"commit": c["cfg_commit"], "tag": c["cfg_tag"], "push": c["cfg_push"], "tag_message": c["tag_message"],
                    "commit_message": "bump {old_version} -> {new_version}"}
+        if c.get("scope"):
+            options["tag_scope"] = c["scope"]
         env_extra = {}
         if c["pre"] != "absent":
             options["pre_commit_hook"] = fv.install_hook("pre-hook")
@@ -244,9 +266,12 @@ def check(case):
         projgen.write_file(tmp, "other.txt", "unrelated\n")
         fv.set("status", {"clean": "", "unrelated-dirty": "M  other.txt\n", "pattern-file-dirty": "M  a.txt\n"}[c["tree"]])
         fv.set("tags_all", "1.2.0\n1.2.3\nnot-a-version\n" if c["vcs"] == "git" else "tip   5:abc\n1.2.3   4:def\n1.2.0   2:aaa\n")
+        fv.set("tags_merged", "1.2.0\n1.2.3\n" if c["vcs"] == "git" else "1.2.3\n1.2.0\n")
         if c["remote"]:
             fv.set("remote", "git@example.org:x/y.git\n" if c["vcs"] == "git" else "default = https://example.org/hg\n")
-        args = ["update", "--patch"]
+        args = ["update"] + (["--set-version", NEW] if c.get("set_version") else ["--patch"])
+        if c.get("ignore"):
+            args.append("--ignore-vcs-tag")
         args.append("--fetch" if c["fetch"] else "--no-fetch")
         for name, flag in (("cli_commit", "commit"), ("cli_tag", "tag-commit"), ("cli_push", "push")):
             if c[name] is True:
@@ -303,6 +328,7 @@ def selftest():
 PARTS = [
     Part("configurations", check=check, domain=domain, exhaustive=lambda tier: tier == "thorough"),
     Part("single-vcs-faults", check=check, domain=fault_domain, exhaustive=lambda tier: tier == "thorough"),
+    Part("scope-and-uniqueness-listings", check=check, domain=scope_domain, exhaustive=lambda tier: True),
 ]
 
 MANIFEST = {
